@@ -583,6 +583,24 @@ pub fn case(batch: &str, tier: &str, i: u64) -> CaseOut {
     let vs = verif_seed();
     let seed = run_seed(vs, "C15", batch, i);
     let mut out = CaseOut { index: i, seed, evals: 1, ..Default::default() };
+    if batch == "thread-history" {
+        let mut rng = Rng::new(seed);
+        let flop = gen_flop(&mut rng);
+        let np = rng.range(1, 2) as usize;
+        let texts: Vec<String> = (0..np).map(|_| TEXT_POOL[rng.usize_below(TEXT_POOL.len())].to_string()).collect();
+        let fi = rng.usize_below(NPOS - 12);
+        let scope = (pos_from_index(fi), pos_from_index(fi + rng.range(2, 10) as usize));
+        let big = BIG_TEXTS[rng.usize_below(BIG_TEXTS.len())];
+        *out.probes.entry("thread_history_cases".into()).or_insert(0) += 1;
+        if let Some(d) = thread_history_case(flop, &texts, scope, big) {
+            out.violation = Some((
+                "sequence_depends_on_thread_history".into(),
+                d,
+                json!({"kind":"c15_thread_history","flop": flop.iter().map(|c| card_str(*c)).collect::<String>(), "texts": texts, "scope": [scope.0.0, scope.0.1, scope.1.0, scope.1.1], "big": big}),
+            ));
+        }
+        return out;
+    }
     if batch == "native-shared" {
         *out.probes.entry("native_shared_showdown_runs".into()).or_insert(0) += 1;
         if let Some(d) = native_shared(seed) {
@@ -657,6 +675,14 @@ pub fn case(batch: &str, tier: &str, i: u64) -> CaseOut {
 
 pub fn eval(v: &Value) -> Option<(String, String)> {
     match v["kind"].as_str().unwrap_or("") {
+        "c15_thread_history" => {
+            let f = v["flop"].as_str()?;
+            let flop = [parse_card(&f[0..2])?, parse_card(&f[2..4])?, parse_card(&f[4..6])?];
+            let texts: Vec<String> = v["texts"].as_array()?.iter().filter_map(|x| x.as_str().map(|s| s.to_string())).collect();
+            let q: Vec<u8> = v["scope"].as_array()?.iter().map(|x| x.as_u64().unwrap_or(0) as u8).collect();
+            let big = v["big"].as_str()?;
+            thread_history_case(flop, &texts, ((q[0], q[1]), (q[2], q[3])), big).map(|d| ("sequence_depends_on_thread_history".to_string(), d))
+        }
         "c15_native" => {
             let seed: u64 = v["seed"].as_str()?.parse().ok()?;
             let heavy = v["heavy"].as_bool().unwrap_or(false);
@@ -697,7 +723,11 @@ fn minimise_json(replay: &Value, _okey: &str, pred: &dyn Fn(&Value) -> bool) -> 
 fn key_json(okey: &str, min: &Value) -> String {
     match Run::from_json(min) {
         Ok(run) => run_key(okey, &run),
-        Err(_) => format!("{okey}:{}", min["seed"].as_str().unwrap_or("")),
+        Err(_) => {
+            let mut f = Fold::new();
+            f.add_str(&min.to_string());
+            format!("{okey}:{}{:08x}", min["seed"].as_str().unwrap_or(""), f.get() as u32)
+        }
     }
 }
 
@@ -784,6 +814,43 @@ fn native_concurrent(seed: u64) -> Option<String> {
         }
     }
     res
+}
+
+const TEXT_POOL: [&str; 10] = ["QQ,AKs", "JJ-99", "A5s-A2s,KQo:0.5", "T9s,98s,87s", "AA,KK:0.5,QQ", "AKo", "76s,65s:0.25", "KQs-KTs", "55-22", "AJs+,KQs"];
+const BIG_TEXTS: [&str; 3] = ["22+,A2s+,K2s+,Q2s+,J2s+,A2o+,K2o+", "22+,A2s+,K2s+,Q2s+,J2s+,T2s+,92s+,82s+,72s+,62s+,52s+,42s+,32s,A2o+,K2o+,Q2o+,J2o+,T2o+,92o+,82o+,72o+,62o+,52o+,42o+,32o", "AA,AKs,AKo,KK,AQs"];
+
+fn history_drain(flop: [u8; 3], texts: &[String], scope: (Pos, Pos), prelude: Option<&str>) -> Vec<Out> {
+    use espada::hand_range::HandRange;
+    if let Some(big) = prelude {
+        // what the thread did before: parsed, formatted and iterated a large range
+        if let Ok(r) = big.parse::<HandRange>() {
+            let _ = crate::evalrun::guarded(|| (r.to_string(), r.card_pairs().len()));
+        }
+    }
+    let ranges: Vec<HandRange> = texts.iter().map(|t| t.parse::<HandRange>().unwrap_or_else(|_| HandRange::empty())).collect();
+    drain(&flop, &ranges, &[scope], 2_000_000).0
+}
+
+/// Does what a thread did *before* (parsing other ranges) change the sequence of an
+/// evaluator built afterwards from freshly parsed ranges? Only judged when two
+/// fresh threads agree exactly (a per-instance random hasher would make them
+/// differ, and then order is nobody's promise).
+fn thread_history_case(flop: [u8; 3], texts: &[String], scope: (Pos, Pos), big: &str) -> Option<String> {
+    let a = fresh_thread(|| history_drain(flop, texts, scope, None));
+    let b = fresh_thread(|| history_drain(flop, texts, scope, None));
+    if !same_seq(&a, &b) {
+        return None;
+    }
+    let c = fresh_thread(|| history_drain(flop, texts, scope, Some(big)));
+    if !same_seq(&c, &a) {
+        return Some(format!(
+            "ranges {:?} parsed on a fresh thread give the same sequence twice, but parsed after the thread had handled '{}…' the evaluator's sequence differs: {}",
+            texts,
+            &big[..big.len().min(24)],
+            first_diff(&c, &a)
+        ));
+    }
+    None
 }
 
 /// Heavy native run: 16 threads, each draining whole-line evaluators over
@@ -1019,7 +1086,8 @@ pub fn run(tier: &str) -> i32 {
     let chunk: u64 = if quick { 8 } else { 64 };
     let n_heavy: u64 = if quick { 3 } else { 48 };
     let n_shared: u64 = if quick { 40 } else { 1000 };
-    for (batch, n) in [("inproc", n_plain), ("fresh", n_fresh), ("native", n_native), ("native-heavy", n_heavy), ("native-shared", n_shared)] {
+    let n_hist: u64 = if quick { 120 } else { 3000 };
+    for (batch, n) in [("inproc", n_plain), ("fresh", n_fresh), ("thread-history", n_hist), ("native", n_native), ("native-heavy", n_heavy), ("native-shared", n_shared)] {
         let chunk = if batch == "native-heavy" { 1 } else { chunk };
         let chunks = run_batch("C15", batch, n, chunk, tier, false);
         for (ci, ch) in chunks.iter().enumerate() {
@@ -1158,7 +1226,7 @@ pub fn replay(v: &Value) -> Option<(String, String)> {
             }
             _ => None,
         },
-        "c15_native" => eval_in_child("C15", r, false).map(|(k, d)| (key_json(&k, r), d)),
+        "c15_native" | "c15_thread_history" => eval_in_child("C15", r, false).map(|(k, d)| (key_json(&k, r), d)),
         "c15_miri" => match miri_tier(verif_seed(), 64) {
             Ok((_, Some(t))) => Some((v["key"].as_str().unwrap_or("").to_string(), t.lines().rev().take(5).collect::<Vec<_>>().join(" | "))),
             _ => None,
